@@ -51,7 +51,9 @@ func (ups *Socket) Connect(manager cert.TlsConfig, mustSecure bool) error {
 		}
 		log.Debugf("Dialing TLS %s", a.String())
 
-		c, err = tls.Dial(n.Network(), n.String(), tlsConfig)
+		// the dialer's time-out covers the TLS handshake as well: a peer which accepts the connection but never
+		// answers the hello must not hold up the fail-over to the next upstream for ever
+		c, err = tls.DialWithDialer(&net.Dialer{Timeout: socketace.HandshakeTimeout}, n.Network(), n.String(), tlsConfig)
 	} else {
 		a.Scheme = addr.PlusEnd.ReplaceAllString(a.Scheme, "")
 		log.Debugf("Dialing plain %s", a.String())
